@@ -886,7 +886,10 @@ func (p *parser) parseConditionalExpression() ast.Expression {
 		}
 		p.next()
 
+		allowIn := p.scope.allowIn
+		p.scope.allowIn = true
 		consequent := p.parseAssignmentExpression()
+		p.scope.allowIn = allowIn
 		if p.mode&StoreComments != 0 {
 			p.comments.Unset()
 		}
